@@ -77,7 +77,14 @@ func NewStrListDecoder(reuseRecords bool) *StrListDecoder {
 	return d
 }
 
+// maxPrealloc bounds how many elements are allocated up front for a count that
+// was read from (possibly hostile) input; slices grow beyond it as data arrives.
+const maxPrealloc = 1024
+
 func (d *StrListDecoder) strSlice(n uint32) []string {
+	if n > maxPrealloc {
+		n = maxPrealloc
+	}
 	if d.strs != nil {
 		if n > uint32(cap(d.strs)) {
 			d.strs = make([]string, 0, n)
